@@ -142,6 +142,23 @@ def word_space(tier):
                 yield (31 << 26) | (rt << 21) | (sp << 11) | (xo << 1)
 
 
+def word_space_extra():
+    """fields wider than a register number: every special-purpose-register number, every leading-bit pattern of the
+    24-bit and 14-bit branch displacements"""
+    for spr in range(1024):
+        sp = ((spr & 0x1f) << 5) | (spr >> 5)
+        for xo in (339, 467, 371):
+            yield (31 << 26) | (3 << 21) | (sp << 11) | (xo << 1)
+    for top in range(32):
+        for low in (0, 1, 0x7ffff, 0x40000):
+            for aalk in range(4):
+                yield (18 << 26) | ((((top << 19) | low) & 0xffffff) << 2) | aalk
+    for bo in (20, 12, 4, 16):
+        for bd in (0x0004, 0x1000, 0x2000, 0x3ffc, 0x4000, 0x7ffc, 0x8000, 0xa000, 0xc000, 0xfffc):
+            for aalk in range(4):
+                yield (16 << 26) | (bo << 21) | (2 << 16) | (bd & 0xfffc) | aalk
+
+
 def llvm_names(words):
     """MCInst opcode name per word (None if llvm-mc rejects it)"""
     inp = '\n'.join(' '.join('0x%02x' % b for b in struct.pack('>L', w)) for w in words) + '\n'
@@ -256,7 +273,7 @@ def shard_words(s, ns, tier, seed, learn=False):
     learned = set() if learn else None
     chunk = []
     with core.quiet_stdout():
-        for i, w in enumerate(word_space(tier)):
+        for i, w in enumerate(itertools.chain(word_space(tier), word_space_extra())):
             if (i // 256) % ns != s:
                 continue
             chunk.append(w)
